@@ -339,6 +339,16 @@ class Renderer:
                     sd[self.key(["chstt", "chemostat"])] = True
                 else:
                     cd = {e: bool(c) for e, c in zip(envs, s["chst"]) if c or self.ru.chance(0.5)}
+                    if self.rich and self.ru.chance(0.4):
+                        # 'default' fallback with explicit exceptions (the documented form): flagged by default, the
+                        # environments that are not flagged say so explicitly
+                        dv = self.ru.chance(0.7)
+                        cd = {"default": dv}
+                        for e, c in zip(envs, s["chst"]):
+                            if bool(c) != dv:
+                                cd[e] = bool(c)
+                            elif self.ru.chance(0.3):
+                                cd[e] = bool(c)
                     sd[self.key(["chstt", "chemostat"])] = cd
             sl.append(sd)
         nd["species"] = sl
@@ -615,6 +625,8 @@ def gen_script(rk, spec, kind, p=None):
         k = rk.randint(1, max(1, int(steps * 1.3)))
         t_max = (k + (0.0 if ongrid else rk.uniform(0.15, 0.85))) * unit
     interval = (rk.randint(0, 4) + rk.uniform(0.15, 0.85)) * unit
+    if rk.chance(p.get("p_tiny_interval", 0.0)):
+        interval = unit * 10.0 ** rk.uniform(-12.0, -9.5)     # t/interval exceeds 2^31 within a few steps: every step records
     seed = rk.bits(31) if rk.chance(p.get("p_seed", 0.9)) else None
     if rk.chance(0.1):
         seed = rk.bits(32)  # above int range: wraps in c_int
